@@ -21,6 +21,11 @@ def run(ctx):
     PV.a7_pairing(ctx)
     PV.a7_zip_alignment(ctx)
     T.check_set_empty_writers(ctx)
+    # 'equal classes always receive the same label, unequal classes different ones'
+    T.check_append_only(ctx)
+    T.check_compression(ctx)
+    ctx.floor("T3", 8)
+    ctx.floor("T4", 8)
     ctx.floor("A1", 1)
     ctx.floor("A2", 1)
     ctx.floor("A3", 7)
